@@ -1,0 +1,340 @@
+//go:build verif
+
+package quic
+
+// Export shims for the C20 (congestion window and pacing) check of the verification harness in /verif.
+// Compiled only with -tags verif. Add-only, no behaviour change.
+//
+// VerifNewSendLoopConn builds a server-side Conn with the production constructor newConnection
+// (real run loop, real send queue, real sentPacketHandler with Reno and the pacer, real
+// receivedPacketHandler, real MTU discoverer) and then replaces exactly three collaborators, the way
+// the package's own run-loop tests do (connection_test.go: newServerTestConnection,
+// connectionOptHandshakeConfirmed, connectionOptUnpacker):
+//
+//   - the sendConn is an adapter around the exported mirror VerifSendConn (it can report
+//     capabilities().GSO and sees every Write with its gsoSize),
+//   - the packer is an adapter around the exported mirror VerifPacker (the packet contents are decided
+//     by the harness; packet numbers are taken from the sent packet handler as packetPacker does),
+//   - the unpacker reads a cleartext short header packet (there are no 1-RTT keys without a handshake).
+//
+// The handshake is not run. Its effects on the connection are applied before the run loop starts with
+// the production methods, in the order the server's run loop applies them (handleTransportParameters,
+// EventHandshakeComplete, handleHandshakeComplete minus the session ticket / token / HANDSHAKE_DONE
+// frames, which only the real packer would send).
+
+import (
+	"context"
+	"encoding/binary"
+	"errors"
+	"net"
+	"time"
+
+	tls "github.com/refraction-networking/utls"
+
+	"github.com/refraction-networking/uquic/internal/ackhandler"
+	"github.com/refraction-networking/uquic/internal/handshake"
+	"github.com/refraction-networking/uquic/internal/monotime"
+	"github.com/refraction-networking/uquic/internal/protocol"
+	"github.com/refraction-networking/uquic/internal/qerr"
+	"github.com/refraction-networking/uquic/internal/utils"
+	"github.com/refraction-networking/uquic/internal/wire"
+)
+
+// VerifSendConn is the part of sendConn the send path uses after the handshake.
+type VerifSendConn interface {
+	// Write is sendConn.Write. b is only valid during the call (the send queue releases the buffer).
+	Write(b []byte, gsoSize uint16, ecn protocol.ECN) error
+	// Capabilities is sendConn.capabilities (connCapabilities flattened).
+	Capabilities() (df, gso, ecn bool)
+}
+
+type verifSendConnAdapter struct {
+	sc                    VerifSendConn
+	localAddr, remoteAddr net.Addr
+}
+
+var _ sendConn = &verifSendConnAdapter{}
+
+func (a *verifSendConnAdapter) Write(b []byte, gsoSize uint16, ecn protocol.ECN) error {
+	return a.sc.Write(b, gsoSize, ecn)
+}
+func (a *verifSendConnAdapter) WriteTo([]byte, net.Addr) error        { return nil }
+func (a *verifSendConnAdapter) Close() error                          { return nil }
+func (a *verifSendConnAdapter) LocalAddr() net.Addr                   { return a.localAddr }
+func (a *verifSendConnAdapter) RemoteAddr() net.Addr                  { return a.remoteAddr }
+func (a *verifSendConnAdapter) ChangeRemoteAddr(net.Addr, packetInfo) {}
+func (a *verifSendConnAdapter) capabilities() connCapabilities {
+	df, gso, ecn := a.sc.Capabilities()
+	return connCapabilities{DF: df, GSO: gso, ECN: ecn}
+}
+
+// VerifShortHeaderPacket is shortHeaderPacket without the packet number (assigned by the adapter)
+// and the logging fields. Length is the number of bytes the packet occupies in the datagram buffer.
+type VerifShortHeaderPacket struct {
+	Frames       []ackhandler.Frame
+	StreamFrames []ackhandler.StreamFrame
+	Ack          *wire.AckFrame
+	Length       protocol.ByteCount
+}
+
+// VerifPacker mirrors the methods of the unexported packer interface that are reachable once the
+// handshake is confirmed. All methods are called on the connection's run-loop goroutine. pn is the
+// packet number the packet will carry if one is returned (ok == true).
+type VerifPacker interface {
+	// AppendPacket is packer.AppendPacket; ok == false means errNothingToPack.
+	AppendPacket(pn protocol.PacketNumber, maxPacketSize protocol.ByteCount, now monotime.Time) (p VerifShortHeaderPacket, ok bool)
+	// PackAckOnlyPacket is packer.PackAckOnlyPacket; ok == false means errNothingToPack.
+	PackAckOnlyPacket(pn protocol.PacketNumber, maxPacketSize protocol.ByteCount, now monotime.Time) (p VerifShortHeaderPacket, ok bool)
+	// PackPTOProbePacket is packer.PackPTOProbePacket for the 1-RTT level; ok == false means a nil packet.
+	PackPTOProbePacket(pn protocol.PacketNumber, maxPacketSize protocol.ByteCount, addPingIfEmpty bool, now monotime.Time) (p VerifShortHeaderPacket, ok bool)
+	// PackMTUProbePacket is packer.PackMTUProbePacket: the returned packet must carry ping and have Length == size.
+	PackMTUProbePacket(pn protocol.PacketNumber, ping ackhandler.Frame, size protocol.ByteCount) VerifShortHeaderPacket
+}
+
+// verifMinScriptedPacketSize is the smallest packet the adapter can emit: every packet starts with
+// its packet number (8 bytes, big endian) so that the receiver of VerifSendConn.Write can split a
+// GSO batch and identify the packets.
+const verifMinScriptedPacketSize = 8
+
+type verifPackerAdapter struct {
+	pk        VerifPacker
+	pnManager packetNumberManager
+}
+
+var _ packer = &verifPackerAdapter{}
+
+var errVerifNotScripted = errors.New("verif: packer method not scripted (unreachable after handshake confirmation)")
+
+func (a *verifPackerAdapter) emit(buf *packetBuffer, p VerifShortHeaderPacket) shortHeaderPacket {
+	if p.Length < verifMinScriptedPacketSize {
+		panic("verif: scripted packet shorter than 8 bytes")
+	}
+	pn := a.pnManager.PopPacketNumber(protocol.Encryption1RTT)
+	start := len(buf.Data)
+	buf.Data = append(buf.Data, make([]byte, p.Length)...)
+	binary.BigEndian.PutUint64(buf.Data[start:], uint64(pn))
+	return shortHeaderPacket{
+		PacketNumber: pn,
+		Frames:       p.Frames,
+		StreamFrames: p.StreamFrames,
+		Ack:          p.Ack,
+		Length:       p.Length,
+	}
+}
+
+func (a *verifPackerAdapter) AppendPacket(buf *packetBuffer, maxPacketSize protocol.ByteCount, now monotime.Time, _ protocol.Version) (shortHeaderPacket, error) {
+	pn, _ := a.pnManager.PeekPacketNumber(protocol.Encryption1RTT)
+	p, ok := a.pk.AppendPacket(pn, maxPacketSize, now)
+	if !ok {
+		return shortHeaderPacket{}, errNothingToPack
+	}
+	return a.emit(buf, p), nil
+}
+
+func (a *verifPackerAdapter) PackAckOnlyPacket(maxPacketSize protocol.ByteCount, now monotime.Time, _ protocol.Version) (shortHeaderPacket, *packetBuffer, error) {
+	pn, _ := a.pnManager.PeekPacketNumber(protocol.Encryption1RTT)
+	p, ok := a.pk.PackAckOnlyPacket(pn, maxPacketSize, now)
+	if !ok {
+		return shortHeaderPacket{}, nil, errNothingToPack
+	}
+	buf := getPacketBuffer()
+	return a.emit(buf, p), buf, nil
+}
+
+func (a *verifPackerAdapter) PackPTOProbePacket(encLevel protocol.EncryptionLevel, maxPacketSize protocol.ByteCount, addPingIfEmpty bool, now monotime.Time, _ protocol.Version) (*coalescedPacket, error) {
+	if encLevel != protocol.Encryption1RTT {
+		return nil, errVerifNotScripted
+	}
+	pn, _ := a.pnManager.PeekPacketNumber(protocol.Encryption1RTT)
+	p, ok := a.pk.PackPTOProbePacket(pn, maxPacketSize, addPingIfEmpty, now)
+	if !ok {
+		return nil, nil
+	}
+	buf := getPacketBuffer()
+	shp := a.emit(buf, p)
+	return &coalescedPacket{buffer: buf, shortHdrPacket: &shp}, nil
+}
+
+func (a *verifPackerAdapter) PackMTUProbePacket(ping ackhandler.Frame, size protocol.ByteCount, _ protocol.Version) (shortHeaderPacket, *packetBuffer, error) {
+	pn, _ := a.pnManager.PeekPacketNumber(protocol.Encryption1RTT)
+	p := a.pk.PackMTUProbePacket(pn, ping, size)
+	buf := getPacketBuffer()
+	shp := a.emit(buf, p)
+	shp.IsPathMTUProbePacket = true
+	return shp, buf, nil
+}
+
+func (a *verifPackerAdapter) PackCoalescedPacket(bool, protocol.ByteCount, monotime.Time, protocol.Version) (*coalescedPacket, error) {
+	return nil, errVerifNotScripted
+}
+
+func (a *verifPackerAdapter) PackConnectionClose(*qerr.TransportError, protocol.ByteCount, protocol.Version) (*coalescedPacket, error) {
+	return nil, errVerifNotScripted
+}
+
+func (a *verifPackerAdapter) PackApplicationClose(*qerr.ApplicationError, protocol.ByteCount, protocol.Version) (*coalescedPacket, error) {
+	return nil, errVerifNotScripted
+}
+
+func (a *verifPackerAdapter) PackPathProbePacket(protocol.ConnectionID, []ackhandler.Frame, protocol.Version) (shortHeaderPacket, *packetBuffer, error) {
+	return shortHeaderPacket{}, nil, errVerifNotScripted
+}
+
+func (a *verifPackerAdapter) SetToken([]byte) {}
+
+// verifCleartextUnpacker reads the packets built by VerifSendLoopConn.Receive:
+// first byte | destination connection ID | packet number (8 bytes, big endian) | frames.
+type verifCleartextUnpacker struct{ connIDLen int }
+
+var _ unpacker = &verifCleartextUnpacker{}
+
+func (u *verifCleartextUnpacker) UnpackLongHeader(*wire.Header, []byte) (*unpackedPacket, error) {
+	return nil, errVerifNotScripted
+}
+
+func (u *verifCleartextUnpacker) UnpackShortHeader(_ monotime.Time, data []byte) (protocol.PacketNumber, protocol.PacketNumberLen, protocol.KeyPhaseBit, []byte, error) {
+	hdrLen := 1 + u.connIDLen + 8
+	if len(data) <= hdrLen {
+		return 0, 0, 0, nil, errors.New("verif: cleartext packet too short")
+	}
+	pn := protocol.PacketNumber(binary.BigEndian.Uint64(data[1+u.connIDLen:]))
+	return pn, protocol.PacketNumberLen4, protocol.KeyPhaseZero, data[hdrLen:], nil
+}
+
+type verifNoopConnRunner struct{}
+
+var _ connRunner = verifNoopConnRunner{}
+
+func (verifNoopConnRunner) Add(protocol.ConnectionID, packetHandler) bool                    { return true }
+func (verifNoopConnRunner) Remove(protocol.ConnectionID)                                     {}
+func (verifNoopConnRunner) ReplaceWithClosed([]protocol.ConnectionID, []byte, time.Duration) {}
+func (verifNoopConnRunner) AddResetToken(protocol.StatelessResetToken, packetHandler)        {}
+func (verifNoopConnRunner) RemoveResetToken(protocol.StatelessResetToken)                    {}
+
+// VerifSendLoopConn is a server-side connection after handshake confirmation whose packets are
+// composed by a VerifPacker and written to a VerifSendConn.
+type VerifSendLoopConn struct {
+	c          *Conn
+	srcConnID  protocol.ConnectionID
+	remoteAddr *net.UDPAddr
+}
+
+// VerifNewSendLoopConn constructs the connection. conf is populated like Transport does
+// (populateConfig); initialRTT is the RTT restored from an address validation token (server.go),
+// zero for none; peer are the client's transport parameters (InitialSourceConnectionID is filled in).
+// Must be called on the goroutine that later calls Run, or before it is started.
+func VerifNewSendLoopConn(sc VerifSendConn, pk VerifPacker, conf *Config, initialRTT time.Duration, peer *wire.TransportParameters) (*VerifSendLoopConn, error) {
+	remoteAddr := &net.UDPAddr{IP: net.IPv4(1, 2, 3, 4), Port: 4321}
+	localAddr := &net.UDPAddr{IP: net.IPv4(127, 0, 0, 1), Port: 1234}
+	clientDestConnID := protocol.ParseConnectionID([]byte{0xc2, 0, 1, 2, 3, 4, 5, 6})
+	clientSrcConnID := protocol.ParseConnectionID([]byte{0xc2, 0xc1, 0xc0, 0xc3})
+	srcConnID := protocol.ParseConnectionID([]byte{0x5e, 0x4d, 0x10, 0x0b, 0x20, 0xc2})
+	ctx, cancel := context.WithCancelCause(context.Background())
+	wc := newConnection(
+		ctx,
+		cancel,
+		&verifSendConnAdapter{sc: sc, localAddr: localAddr, remoteAddr: remoteAddr},
+		verifNoopConnRunner{},
+		clientDestConnID,
+		nil,
+		clientDestConnID,
+		clientSrcConnID,
+		srcConnID,
+		&protocol.DefaultConnectionIDGenerator{},
+		newStatelessResetter(nil),
+		populateConfig(conf),
+		&tls.Config{},
+		handshake.NewTokenGenerator(handshake.TokenProtectorKey{}),
+		true, // the client's address is validated: no anti-amplification limit
+		initialRTT,
+		nil,
+		utils.DefaultLogger,
+		protocol.Version1,
+	)
+	c := wc.Conn
+	c.packer = &verifPackerAdapter{pk: pk, pnManager: c.sentPacketHandler}
+	c.unpacker = &verifCleartextUnpacker{connIDLen: c.srcConnIDLen}
+
+	now := monotime.Now()
+	// EventReceivedTransportParameters
+	params := *peer
+	params.InitialSourceConnectionID = clientSrcConnID
+	if err := c.handleTransportParameters(&params); err != nil {
+		return nil, err
+	}
+	// EventHandshakeComplete, then handleHandshakeComplete (server side)
+	c.handshakeComplete = true
+	close(c.handshakeCompleteChan)
+	c.connIDManager.SetHandshakeComplete()
+	c.connIDGenerator.SetHandshakeComplete(now.Add(3 * c.rttStats.PTO(false)))
+	if err := c.handleHandshakeConfirmed(now); err != nil {
+		return nil, err
+	}
+	return &VerifSendLoopConn{c: c, srcConnID: srcConnID, remoteAddr: remoteAddr}, nil
+}
+
+// Run is Conn.run (blocks until the connection is closed).
+func (v *VerifSendLoopConn) Run() error { return v.c.run() }
+
+// ScheduleSending is Conn.scheduleSending (what streams and the datagram queue call when they have data).
+func (v *VerifSendLoopConn) ScheduleSending() { v.c.scheduleSending() }
+
+// Destroy is Conn.destroy (immediate close, no CONNECTION_CLOSE is packed).
+func (v *VerifSendLoopConn) Destroy(err error) { v.c.destroy(err) }
+
+// Context is Conn.Context.
+func (v *VerifSendLoopConn) Context() context.Context { return v.c.Context() }
+
+// Receive hands a cleartext 1-RTT packet with the given packet number and frames to
+// Conn.handlePacket, the way Transport does for a datagram read from the socket. Safe on any goroutine.
+func (v *VerifSendLoopConn) Receive(pn protocol.PacketNumber, frames []wire.Frame, ecn protocol.ECN) error {
+	buf := getPacketBuffer()
+	b := buf.Data[:0]
+	b = append(b, 0x40)
+	b = append(b, v.srcConnID.Bytes()...)
+	b = binary.BigEndian.AppendUint64(b, uint64(pn))
+	for _, f := range frames {
+		var err error
+		b, err = f.Append(b, v.c.version)
+		if err != nil {
+			buf.Release()
+			return err
+		}
+	}
+	buf.Data = b
+	v.c.handlePacket(receivedPacket{
+		remoteAddr: v.remoteAddr,
+		rcvTime:    monotime.Now(),
+		data:       buf.Data,
+		buffer:     buf,
+		ecn:        ecn,
+	})
+	return nil
+}
+
+// The accessors below read run-loop state: call them on the run-loop goroutine (from a VerifPacker
+// callback) or while the run loop is blocked.
+
+// SentPacketHandler returns the connection's sent packet handler.
+func (v *VerifSendLoopConn) SentPacketHandler() ackhandler.SentPacketHandler {
+	return v.c.sentPacketHandler
+}
+
+// GetAckFrame is receivedPacketHandler.GetAckFrame for the 1-RTT level (the packer's ackFrameSource).
+func (v *VerifSendLoopConn) GetAckFrame(now monotime.Time, onlyIfQueued bool) *wire.AckFrame {
+	return v.c.receivedPacketHandler.GetAckFrame(protocol.Encryption1RTT, now, onlyIfQueued)
+}
+
+// RTTStats returns the connection's RTT statistics.
+func (v *VerifSendLoopConn) RTTStats() *utils.RTTStats { return v.c.rttStats }
+
+// MaxPacketSize is Conn.maxPacketSize.
+func (v *VerifSendLoopConn) MaxPacketSize() protocol.ByteCount { return v.c.maxPacketSize() }
+
+// PacingDeadline returns Conn.pacingDeadline and whether it is the "send immediately" marker.
+func (v *VerifSendLoopConn) PacingDeadline() (deadline monotime.Time, immediately bool) {
+	return v.c.pacingDeadline, v.c.pacingDeadline == deadlineSendImmediately
+}
+
+// SendQueueWouldBlock is sender.WouldBlock of the connection's send queue.
+func (v *VerifSendLoopConn) SendQueueWouldBlock() bool { return v.c.sendQueue.WouldBlock() }
